@@ -25,11 +25,14 @@ func standaloneProduct(maxN int, visit func(idx int, sc *scen.Scenario, sig stri
 						continue // struct kinds with an ExecFallback method always have it
 					}
 					for prep := 0; prep < 2; prep++ {
-						for post := 0; post < 3; post++ { // 0 action, 1 empty, 2 err
+						for post := 0; post < 4; post++ { // 0 action, 1 empty, 2 err, 3 an action that consists of white space only (still post's action)
 							ns := scen.NodeSpec{Kind: kind, N: n, HasFB: fb != 0, ErrKind: scen.AllErrKinds[idx%len(scen.AllErrKinds)]} // incl. errors that wrap a context error, uncomparable error values, joined errors
 							v := scen.Visit{PrepErr: prep == 1, FirstOK: k, FBErr: fb == 2, Post: "go", PostErr: post == 2}
 							if post == 1 {
 								v.Post = ""
+							}
+							if post == 3 {
+								v.Post = []string{" ", "\t", "\n", "\u00a0", "  "}[idx%5]
 							}
 							if idx%3 == 1 {
 								v.Payload = 1 + (idx*7)%160
@@ -153,7 +156,7 @@ func runC01(c *Cfg) {
 		r.Nontrivial("fr:" + scenSig(fr[i]))
 	})
 	r.Exhaustive = true
-	r.Note(fmt.Sprintf("standalone product enumerated completely: %d cases (11 node kinds x budgets 1..8 x first-success index 1..N+1 x fallback x prep x post)", len(cases)))
+	r.Note(fmt.Sprintf("standalone product enumerated completely: %d cases (%d node kinds x budgets 1..8 x first-success index 1..N+1 x fallback x prep x post)", len(cases), scen.NumScriptedKinds))
 	// 2. nodes embedded in generated flows, with one run-ending failure injected at a random on-path position
 	nFlows := c.Pick(20000, 1000000)
 	parallel(c, nFlows, func(i int) {
